@@ -65,7 +65,7 @@ pub fn owners(st: &Step) -> Vec<&'static str> {
         Step::MBase { .. } => vec!["C07", "C04"],
         Step::Uni { .. } => vec!["C06"],
         Step::Batch { .. } | Step::Rerep { .. } | Step::FromEd { .. } => vec!["C06"],
-        Step::Mul { g, .. } | Step::MulBase { g, .. } | Step::Table { g, .. } | Step::Dbl2 { g, .. } | Step::Msm { g, .. } | Step::Pre { g, .. } => {
+        Step::Mul { g, .. } | Step::MulBase { g, .. } | Step::Table { g, .. } | Step::TUse { g, .. } | Step::PUse { g, .. } | Step::Dbl2 { g, .. } | Step::Msm { g, .. } | Step::Pre { g, .. } => {
             // the Ristretto wrappers are also "group operations are the images of the Edwards operations" (C06)
             if *g == 1 {
                 vec!["C04", "C06"]
@@ -148,6 +148,8 @@ fn one(w: &mut World, i: usize, st: &Step, c: &mut Counters) -> Result<Option<(u
             | Step::FromEd { .. }
             | Step::Rand { .. }
             | Step::Cofac { .. }
+            | Step::TUse { .. }
+            | Step::PUse { .. }
     );
     let is_disk = matches!(st, Step::Store { .. } | Step::Load { .. } | Step::SimFmt { .. });
     let m = if is_group {
